@@ -21,7 +21,7 @@ PARTIAL = ["default_float_decay_error_ancestors (Props/C01e.v) proves, for ALL i
            "for the shipped data; for other data sets the generic float_decay_error gives the bound from that data set's kernel-computed constants",
            "the theorem is about the primitive-float model Model/FloatDecay.v (tied to the implementation bit for bit per case, with SciPy's accumulation "
            "orders observed) and assumes each stored exponential is within 2^-50 of exp(-lambda t) (libm; checked per case by interval arithmetic)",
-           "cumulative_decays has no rounding theorem (C03 is per case)",
+           "the cumulative_decays analogue is Props/C03b.v (claimed under C03)",
            "decay() control flow is hand-modelled over R (Model/DecayModel.v): tie = recorded source text + correspondence"]
 TRUSTED_BASE = [
     "Coq 8.16.1 kernel incl. vm_compute",
@@ -48,7 +48,7 @@ def correspondence(ctx):
     D.decay_stream(rng, cases, "check_float_decay Default", "decay_float", streams, viol, samples,
                    "Inventory.decay: nuclide set = progeny closure, alphabetical, finite, stable activity exactly 0, every amount within "
                    "1e-11 x (atoms of its ancestors) of the proved enclosure of the exact solution; single parents + mixed inventories in every unit",
-                   shard=8)
+                   shard=8, py_pred=D.parent_tail_pred())
     # the same requests against the synthetic data set (states p q r x, other year length, SF, open branches), same model, same bound
     sn, ss = D.names_of("synth")
     scases = D.gen_cases(rng, sn, ss, 100, 200 if thorough else 20, "Inventory", ds="synth")
